@@ -466,7 +466,26 @@ func c15Brokers(c *Ctx) {
 	p := c.P
 	rule := "C15.brokers"
 	c.Doc(rule, "updateBroker: a broker is removed only when its id is absent from the response, and every absent one is; a registered broker is replaced only when its address changed, a new id is added")
-	c.Floor(rule, 3)
+	c.Floor(rule, 5)
+	// every metadata response — full or for some topics — updates the broker set and the controller id
+	if um := c.NeedFn(rule, "client.updateMetadata"); um != nil {
+		reg := WholeFn(um)
+		ub := reg.Find(p.CallWith("client.updateBroker", 1, FieldLoad("MetadataResponse.Brokers")))
+		if len(ub) == 0 {
+			c.Fail(rule, um, "brokers-from-every-response", nil, "updateMetadata does not pass the response's broker list to updateBroker", nil)
+		}
+		setCtl := StoreTo(FieldLoad("MetadataResponse.ControllerID"), "client.controllerID")
+		for _, u := range ub {
+			esc, path := reg.From(u.After()).Escape(setCtl)
+			c.Check(!esc, rule, um, "controller-from-every-response", u.Instr(), "client.controllerID takes the response's ControllerID on every path, whatever kind of refresh it was",
+				"client.controllerID is not updated from every metadata response (for instance only from full ones): with Metadata.Full = false the controller is never learnt or refreshed, and after NOT_CONTROLLER the admin retries against the same broker", path)
+		}
+		// and it reaches updateBroker on every path past the closed test
+		if lk := reg.Find(p.CallTo("(*sync.RWMutex).Lock")); len(lk) > 0 {
+			esc, path := reg.From(lk[0].After()).Escape(p.CallTo("client.updateBroker"))
+			c.Check(!esc, rule, um, "brokers-from-every-response", lk[0].Instr(), "updateBroker is called on every path", "a metadata response can be folded in without reconciling the broker set", path)
+		}
+	}
 	fn := c.NeedFn(rule, "client.updateBroker")
 	if fn == nil {
 		return
